@@ -252,6 +252,20 @@ RAW static int raw_differs(const void *a, const void *b, size_t n)
 static volatile int asan_errors; static volatile uint64_t asan_total;
 #endif
 
+/* the statics of pack.c (vx.h, `lib=`): saved / restored with copies the sanitizer does not see, because in the
+ * AddressSanitizer build the red zones around the library's globals lie inside the saved image */
+static void lib_save(void *dst)
+{
+	if (vx_lib_dsz()) raw_copy(dst, __start_vxlibdata, vx_lib_dsz());
+	if (vx_lib_bsz()) raw_copy((char *)dst + vx_lib_dsz(), __start_vxlibbss, vx_lib_bsz());
+}
+static void lib_restore(const void *src)
+{
+	if (vx_lib_dsz()) raw_copy(__start_vxlibdata, src, vx_lib_dsz());
+	if (vx_lib_bsz()) raw_copy(__start_vxlibbss, (const char *)src + vx_lib_dsz(), vx_lib_bsz());
+}
+static void lib_reset(void) { if (vx_lib_pristine) lib_restore(vx_lib_pristine); }
+
 /* ------------------------------------------------------------------ constants */
 
 #define MAXN 9			/* largest buffer of the sequence / reinit families */
@@ -484,7 +498,7 @@ static void begin_case(int fam, uint32_t cap, long n0, int place, int can, int p
 {
 	if (prev_sparse) for (int w = 0; w < NWT; w++) raw_fill(WT[w].real, 0, WT[w].len);	/* back to the state of a fresh mapping */
 	FAM = fam; CAP = cap; PLACE = place; CAN = can; PK0 = pk0;
-	vx_lib_reset();
+	lib_reset();
 	asan_hide();
 	SPARSE = cap > FULLMAX; prev_sparse = SPARSE;
 	buf = place == PL_R ? AR.hi - cap : place == PL_L ? AR.lo : AR.lo + 8192;
@@ -568,7 +582,7 @@ static int fail(int sit, const char *clause, const char *fmt, ...)
 	if (ci == nclauses && nclauses < 24) clauses[nclauses++] = clause;
 	const act_t *a = plen ? cur_act : NULL;
 	int kind = a ? a->kind : K_KINDS, nul = a ? a->null : 0;
-	if (ci < 24 && seen_sig[ci][kind][nul][sit]) { vx_viol_total++; return 0; }
+	if (ci < 24 && seen_sig[ci][kind][nul][sit]) { if (++vx_viol_total > 20000) give_up = 1; return 0; }	/* a broken library: no point in visiting every failing case */
 	if (ci < 24) seen_sig[ci][kind][nul][sit] = 1;
 	vx_sb sig = {0}, rep = {0}, hist = {0};
 	va_list ap; va_start(ap, fmt); char *m = vx_vfmt(fmt, ap); va_end(ap);
@@ -865,12 +879,12 @@ static volatile int depth;
 static void frame_save(struct frame *f)
 {
 	memcpy(f->img, WT[0].shadow, WT[0].len); f->m = M; f->pk = pk;
-	if (vx_lib_size()) { if (!f->lib && !(f->lib = malloc(vx_lib_size()))) _exit(3); vx_lib_save(f->lib); }
+	if (vx_lib_size()) { if (!f->lib && !(f->lib = malloc(vx_lib_size()))) _exit(3); lib_save(f->lib); }
 }
 static void frame_load(const struct frame *f)
 {
 	raw_copy(WT[0].real, f->img, WT[0].len); memcpy(WT[0].shadow, f->img, WT[0].len); M = f->m; pk = f->pk;
-	if (f->lib) vx_lib_restore(f->lib);
+	if (f->lib) lib_restore(f->lib);
 }
 
 /* all sequences of length exactly L, call i taken from DF.lev[i] (their proper prefixes are re-executed and
@@ -881,6 +895,7 @@ static int dfs(int L)
 	static uint64_t poll;
 	int ok;
 	begin_case(DF.fam, DF.cap, DF.n0, DF.place, DF.can, DF.pk0);
+	if (NWT != 1 || WT[0].len > WMAX) { fprintf(stderr, "c12: window too large for a depth-first family\n"); _exit(3); }
 	implicit_init = 1;
 	suppress = (L != 0);
 	/* the implicit rf_pack_init is a checked call of its own: the history of length 0 */
@@ -999,6 +1014,7 @@ static int run(act_t a, int count)
 
 static void guarded(void (*body)(void))
 {
+	if (give_up) return;
 	if (VX_TRY) { body(); VX_END; }
 	else {
 		VX_END;
@@ -1168,9 +1184,11 @@ static int wide_family(uint32_t S, int place, int sample)
 {
 	static uint32_t r2v[128];
 	static const uint32_t r2fix[] = { 0, 1, 2, 3, 255, 256, 257, 65535, 65536, 65537 };
+	int pc0 = 0;
 	if (S > FULLMAX) madvise(AR.lo, (size_t)(AR.hi - AR.lo), MADV_DONTNEED);
 	for (int i1 = 0; i1 < NWIDE; i1++) {
 		uint32_t r1 = wideV[i1];
+		int pc1 = 0, pc2 = -1;
 		if (vx_deadline_passed() || vx_too_many_violations() || give_up) return 0;
 		/* second advance: around 2^8 and 2^16, and landing 3, 2, 1 short of / exactly at / one past the end */
 		int n2 = 0;
@@ -1178,14 +1196,17 @@ static int wide_family(uint32_t S, int place, int sample)
 		for (int d = -3; d <= 1; d++) { long v = (long)S - (long)r1 + d; if (v >= 0 && v <= SCOPE_MAX) r2v[n2++] = (uint32_t)v; }
 		if (vx_thorough()) for (int i = 0; i < NWIDE; i++) r2v[n2++] = wideV[i];
 		for (int i = 0; i < n2; i++) for (int j = 0; j < i; j++) if (r2v[j] == r2v[i]) { r2v[i--] = r2v[--n2]; break; }
-		for (int i2 = 0; i2 < n2; i2++) for (int k2 = 0; k2 < 2; k2++) for (int i3 = 0; i3 < NPROBE; i3++) {
+		/* the probes, and an empty run as the last one: the histories that request exactly 2^31-1 bytes end with it */
+		for (int i2 = 0; i2 < n2; i2++) for (int k2 = 0; k2 < 2; k2++) for (int i3 = 0; i3 <= NPROBE; i3++) {
 			uint32_t r2 = r2v[i2];
-			act_t a2 = k2 ? mk_bytes(K_P_BYTES, 1, r2) : SKIP(r2);
+			act_t a2 = k2 ? mk_bytes(K_P_BYTES, 1, r2) : SKIP(r2), a3 = i3 < NPROBE ? probeA[i3] : SKIP(0);
 			if (k2 && !ops[K_P_BYTES].impl) continue;
-			if ((long)r1 + (long)r2 + (long)act_size(&probeA[i3]) > SCOPE_MAX) { n_wide_scope_skips++; continue; }
+			if ((long)r1 + (long)r2 + (long)act_size(&a3) > SCOPE_MAX) { n_wide_scope_skips++; continue; }
 			if (touches_too_much(S, (long)r1, &a2)) { n_wide_touch_skips++; continue; }
-			FAM = FAM_WIDE; BC.S = S; BC.place = place; BC.a1 = SKIP(r1); BC.a2 = a2; BC.a3 = probeA[i3];
-			BC.c2 = (i3 == 0); BC.c1 = BC.c2 && i2 == 0 && k2 == 0; BC.c0 = BC.c1 && i1 == 0;
+			FAM = FAM_WIDE; BC.S = S; BC.place = place; BC.a1 = SKIP(r1); BC.a2 = a2; BC.a3 = a3;
+			/* a shared prefix counts once: with the first history of this unit that contains it */
+			if (pc2 != (i2 * 2 + k2)) { pc2 = i2 * 2 + k2; BC.c2 = 1; } else BC.c2 = 0;
+			BC.c1 = !pc1; pc1 = 1; BC.c0 = !pc0; pc0 = 1;
 			guarded(big_case); n_wide_seq++;
 			if (sample && r1 == 0x40000000u && r2 == 65536 && k2 == 0 && i3 == 0 && vx_want_sample()) sample_current("wide (2 GiB mapping)");
 		}
@@ -1273,6 +1294,7 @@ static void df_config(int fam, uint32_t cap, long n0, int place, int can, int pk
 int main(int argc, char **argv)
 {
 	vx_init(argc, argv);
+	asan_errors = 0; asan_total = 0;	/* vx_init copies the image of the library's statics with memcpy: red zones */
 	vx_install_handlers();
 	vx_watchdog(2.0);
 	detect_implemented();
@@ -1376,11 +1398,11 @@ int main(int argc, char **argv)
 				if (cap == 8 && n1 == 8 && n2 == 3 && pi == 0 && pk0 == 1) { DF.samples_left = ASAN_BUILD ? 1 : 2; DF.sample_at = 1501; DF.name = SAMPLENAME("re-initialisation with another size"); }
 				for (int L = first ? 0 : 2; L <= 4; L++) if (!dfs(L)) { complete = 0; break; }
 				first = 0;
-				if (thorough && pk0 == 0) {	/* two calls before the re-initialisation */
+				if (thorough && pk0 == 0) {	/* two calls before the re-initialisation, one after */
 					df_config(FAM_REINIT, (uint32_t)cap, n1, places[pi], 32, 0, 1, 0);
 					DF.lev[0].a = seqA; DF.lev[0].n = NSEQ; DF.lev[1].a = seqA; DF.lev[1].n = NSEQ; DF.lev[2].a = oneinit; DF.lev[2].n = 1;
-					DF.lev[3].a = seqA; DF.lev[3].n = NSEQ; DF.lev[4].a = seqA; DF.lev[4].n = NSEQ;
-					for (int L = 3; L <= 5; L++) if (!dfs(L)) { complete = 0; break; }
+					DF.lev[3].a = seqA; DF.lev[3].n = NSEQ;
+					for (int L = 3; L <= 4; L++) if (!dfs(L)) { complete = 0; break; }
 				}
 				vx_count("reinit_size_pairs(old size,new size,placement,initial rf_pack_t)", 1);
 			}
@@ -1403,7 +1425,7 @@ int main(int argc, char **argv)
 		}
 	}
 	if (vx_too_many_violations()) vx_note("enumeration stopped early: violation table full");
-	if (give_up) { complete = 0; vx_note("enumeration stopped early: repeated endless loops or sanitizer reports"); }
+	if (give_up) { complete = 0; vx_note("enumeration stopped early: repeated endless loops, or more than 20000 violating cases / 400 sanitizer reports in one worker"); }
 
 	vx_and("exhaustive", complete);
 	vx_count("evaluations", n_eval);
